@@ -6,6 +6,7 @@ import (
 	"bufio"
 	"fmt"
 	"io"
+	"net"
 	"runtime"
 	"time"
 )
@@ -236,6 +237,145 @@ func rxUDP(k *toks, o *out) {
 	o.bool(rxBalloon(&m0, &m1, received+len(results)*len(rxSentinel)))
 }
 
+// rxwire: the same case format as rxudp, but the datagrams travel over a REAL loopback socket into
+// the REAL UDPServerTransport.receiveMessage goroutine (its Alloc / ReadFromUDP / enqueue code), and
+// from there one by one ("parse") into the REAL startParseMessage goroutine, both on the same REAL
+// pool.  The two goroutines run on two transport values that share the pool, so that the harness can
+// pace the hand-over (receive loop ahead of the parse loop in every scripted order).
+//      -> nresults {ok msg | err | hang}.. pooldups balloon
+//   pooldups = buffers that sit in the pool more than once at the end (a buffer freed twice)
+type rxWireHandler struct{ got *Message }
+
+func (h *rxWireHandler) HandleRawMessage(m *RawMessage) { h.got = m.Message }
+func (h *rxWireHandler) HandleMessage(m *Message)       {}
+
+func rxWire(k *toks, o *out) {
+	asize := k.int()
+	nops := k.int()
+	if k.bad || asize < 1 {
+		k.bad = true
+		return
+	}
+	ip := faultIP().String()
+	u1, err := NewUDPServerTransport(ip, 0, false, nil)
+	if err != nil {
+		panic(err)
+	}
+	u1.msgBufPool = NewByteArrayPool(40960, asize)
+	h := &rxWireHandler{}
+	u1.msgHandler = h
+	conn, err := net.ListenUDP("udp", u1.localAddr)
+	if err != nil {
+		panic(err)
+	}
+	u1.conn = conn
+	defer conn.Close()
+	go u1.receiveMessage()
+	u2 := &UDPServerTransport{msgParseChannel: make(chan SizedByteArray, 16), msgBufPool: u1.msgBufPool}
+	go u2.startParseMessage()
+	cl, err := net.DialUDP("udp", &net.UDPAddr{IP: faultIP()}, conn.LocalAddr().(*net.UDPAddr))
+	if err != nil {
+		panic(err)
+	}
+	defer cl.Close()
+	pending, received := 0, 0
+	var results [][]string
+	var m0, m1 runtime.MemStats
+	runtime.ReadMemStats(&m0)
+	hung := false
+	ssz := asize
+	if ssz < len(rxSentinel) {
+		ssz = len(rxSentinel)
+	}
+	for i := 0; i < nops && !k.bad && !hung; i++ {
+		switch k.str() {
+		case "recv":
+			d := k.bytes()
+			received += len(d)
+			if _, err := cl.Write(d); err != nil {
+				panic(err)
+			}
+			pending++
+			// the receive loop has queued it when the channel holds every datagram not yet handed over
+			dl := time.Now().Add(rxWatchdog)
+			for len(u1.msgParseChannel) < pending {
+				if time.Now().After(dl) {
+					hung = true
+					break
+				}
+				time.Sleep(50 * time.Microsecond)
+			}
+			if hung {
+				results = append(results, []string{"hang"})
+			}
+		case "dirty":
+			pat := k.bytes()
+			b := u1.msgBufPool.Alloc()
+			copy(b, pat)
+			u1.msgBufPool.Free(b)
+		case "parse":
+			if pending == 0 {
+				continue
+			}
+			it := <-u1.msgParseChannel
+			pending--
+			h.got = nil
+			u2.msgParseChannel <- it
+			// barrier: a sentinel in an array of its own (full size: the receive loop may take it from the pool later)
+			sb := make([]byte, ssz)
+			copy(sb, rxSentinel)
+			sig := make(chan struct{}, 1)
+			u2.msgParseChannel <- SizedByteArray{b: sb, n: len(rxSentinel), msgHandler: func(m *Message) { sig <- struct{}{} }}
+			select {
+			case <-sig:
+			case <-time.After(rxWatchdog):
+				hung = true
+			}
+			if hung {
+				results = append(results, []string{"hang"})
+			} else if h.got != nil {
+				oo := &out{}
+				oo.s("ok")
+				rxPutMsg(oo, h.got)
+				results = append(results, oo.t)
+			} else {
+				oo := &out{}
+				oo.s("err")
+				results = append(results, oo.t)
+			}
+		default:
+			k.bad = true
+		}
+	}
+	if k.bad {
+		return
+	}
+	runtime.ReadMemStats(&m1)
+	o.i(len(results))
+	for _, r := range results {
+		if len(r) == 1 && r[0] == "hang" {
+			o.s("hang")
+		} else {
+			o.t = append(o.t, r...)
+		}
+	}
+	u1.msgBufPool.Lock()
+	seen := map[*byte]bool{}
+	dups := 0
+	for _, b := range u1.msgBufPool.pool {
+		if len(b) == 0 {
+			continue
+		}
+		if seen[&b[0]] {
+			dups++
+		}
+		seen[&b[0]] = true
+	}
+	u1.msgBufPool.Unlock()
+	o.i(dups)
+	o.bool(rxBalloon(&m0, &m1, received+len(results)*ssz))
+}
+
 func rxPool(k *toks, o *out) {
 	maxcap := k.int()
 	asize := k.int()
@@ -287,4 +427,5 @@ func init() {
 	components["rxudp"] = rxUDP
 	components["rxudp-c08"] = rxUDP
 	components["rxpool"] = rxPool
+	components["rxwire"] = rxWire
 }
